@@ -12,18 +12,16 @@ HERE = os.path.dirname(os.path.dirname(os.path.abspath(__file__)))
 sys.path.insert(0, HERE)
 from sa.core import AnalysisError, Program  # noqa: E402
 from sa.report import Ctx  # noqa: E402
-from sa.selftest import patch_edits  # noqa: E402
+from sa.selftest import apply_edits, patch_edits  # noqa: E402
 
 PROPS = [f'C{i:02d}' for i in range(1, 21)]
 _BASE = None
 
 
 def apply(prog, patch_text):
-    srcs = dict(prog.sources)
-    for path, old, new in patch_edits(patch_text):
-        if path not in srcs or srcs[path].count(old) != 1:
-            return None, f'hunk of {path} does not apply exactly once'
-        srcs[path] = srcs[path].replace(old, new)
+    srcs, why = apply_edits(prog.sources, patch_edits(patch_text))
+    if srcs is None:
+        return None, why
     return Program(srcs), None
 
 
